@@ -19,16 +19,16 @@ import (
 )
 
 type Ctx struct {
-	Tier    string
+	Tier string
 	// QuickArm64: include the arm64 configuration (fe_arm64.s) in the quick tier
 	QuickArm64 bool
-	progs   map[string]*load.Program
-	eff     map[string]*effects.Analysis
-	grd     map[string]*guards.Engine
-	tnt     map[string]*taint.Engine
-	Set     *report.Set
-	loaded  []string
-	Samples []interface{}
+	progs      map[string]*load.Program
+	eff        map[string]*effects.Analysis
+	grd        map[string]*guards.Engine
+	tnt        map[string]*taint.Engine
+	Set        *report.Set
+	loaded     []string
+	Samples    []interface{}
 	// limbPositional names abstract Element inputs by position (for sibling comparison)
 	limbPositional bool
 	limbInts       []int64 // concrete values for integer parameters (variant comparison)
